@@ -1,4 +1,5 @@
 mod m1;
+mod m3;
 mod util;
 use util::*;
 
@@ -7,6 +8,8 @@ fn main() {
     let rep = match (args.cmd.as_str(), &args.replay) {
         ("c15", None) => m1::run(&args),
         ("c15", Some(p)) => m1::replay(&args, p),
+        ("c14", None) => m3::run(&args),
+        ("c14", Some(p)) => m3::replay(&args, p),
         (other, _) => {
             eprintln!("unknown command {other}");
             std::process::exit(2);
